@@ -99,7 +99,7 @@ struct endctx {
 };
 static struct endctx E[2];                /* arena: never freed, so a late callback is detected without ASan */
 static struct event_base *base;
-static int loop_cbs, loop_broke, in_loop;
+static int loop_cbs, loop_broke, in_loop, in_nudge;
 static int listener_fd = -1, listener_port, refused_port, accepted_fd = -1;
 static int connect_state;                 /* 0 none, 1 started ok-target, 2 started refused-target */
 
@@ -201,10 +201,14 @@ filt_cb(struct evbuffer *src, struct evbuffer *dst, ev_ssize_t lim, enum buffere
 	case F_XOR: {
 		/* re-chunking: at most 7 bytes per call on short input, 1500 on long input */
 		size_t chunk = avail < 64 ? 7 : 1500;
-		if (n > chunk) n = chunk;
-		if (evbuffer_remove(src, scratch, n) != (int)n) return BEV_ERROR;
-		for (size_t i = 0; i < n; i++) scratch[i] ^= 0x5a;
-		if (evbuffer_add(dst, scratch, n) < 0) return BEV_ERROR;
+		/* BEV_FLUSH / BEV_FINISHED: "flush as much data as we can" = everything that is allowed */
+		do {
+			size_t k = n > chunk ? chunk : n;
+			if (evbuffer_remove(src, scratch, k) != (int)k) return BEV_ERROR;
+			for (size_t i = 0; i < k; i++) scratch[i] ^= 0x5a;
+			if (evbuffer_add(dst, scratch, k) < 0) return BEV_ERROR;
+			n -= k;
+		} while (mode != BEV_NORMAL && n);
 		return BEV_OK;
 	}
 	}
@@ -232,7 +236,7 @@ static void observe_end(struct endctx *c, const char *where)
 		mc_fail(k, "%s: end %d input differs from the written stream at stream offset %zu (buffer offset %zu, len %zu)",
 		    where, c->id, c->rd_total + bad, bad, len);
 	}
-	if (c->eof_seen && c->rd_total + len > c->arrived_at_eof) {
+	if (c->eof_seen && c->rd_total + len > c->arrived_at_eof && !in_nudge) {
 		KEY(k, "C19/data-after-eof/%s", tname());
 		mc_fail(k, "%s: end %d received %zu more bytes after EOF was reported", where, c->id, c->rd_total + len - c->arrived_at_eof);
 		c->arrived_at_eof = c->rd_total + len;
@@ -434,6 +438,10 @@ static void eventcb(struct bufferevent *bev, short what, void *arg)
 			MC_COUNT("c17_eof_checked");
 			if (!p->wr_closed && !p->freed) {
 				KEY(k, "C17/spurious-eof/%s", tname()); mc_fail(k, "end %d: EOF|READING but the peer never finished writing", c->id);
+			} else if (p->wr_closed && g_type == T_FILTER && g_filt == F_NEEDMORE && c->rd_total + len + 1 == p->closed_at &&
+			    evbuffer_get_length(c->stack[1]->input) == 1) {
+				/* the incomplete unit the NEED_MORE filter is (legitimately) holding back */
+				MC_COUNT("c17_eof_needmore_tail");
 			} else if (p->wr_closed && c->rd_total + len < p->closed_at) {
 				KEY(k, "C17/eof-before-data/%s", tname());
 				mc_fail(k, "end %d: EOF reported with %zu of %zu bytes delivered (consumed %zu + buffered %zu)", c->id,
@@ -508,7 +516,7 @@ static int setup(void)
 {
 	memset(E, 0, sizeof E); nfc = 0;
 	E[0].id = 0; E[1].id = 1; E[0].fd = E[1].fd = -1;
-	loop_cbs = loop_broke = in_loop = 0; connect_state = 0; accepted_fd = -1;
+	loop_cbs = loop_broke = in_loop = in_nudge = 0; connect_state = 0; accepted_fd = -1;
 	base = event_base_new();
 	if (!base) { mc_fail("harness:no-base", "event_base_new failed"); return -1; }
 	struct bufferevent *pr[2];
@@ -686,9 +694,10 @@ static int apply(const struct op *o)
 		if (g_type == T_CONNECT && 0) return 0;
 		if (c->wr_total + o->a > PATLEN) return 0;
 		if (BEV_UPCAST(c->bev)->writecb_pending) c->wr_forgive = 1;
-		int r = bufferevent_write(c->bev, pat[1 - c->id] + c->wr_total, o->a);
-		if (r != 0) { KEY(k, "C17/write-failed/%s", tname()); mc_fail(k, "bufferevent_write(%d) = %d", o->a, r); return 0; }
+		/* the bytes count as written from the moment of the call: callbacks may run inside it */
 		c->wr_total += o->a;
+		int r = bufferevent_write(c->bev, pat[1 - c->id] + c->wr_total - o->a, o->a);
+		if (r != 0) { KEY(k, "C17/write-failed/%s", tname()); mc_fail(k, "bufferevent_write(%d) = %d", o->a, r); return 0; }
 		/* a write that is flushed through at once by the transport counts as a write-out for C18 only
 		 * if bytes left the output; prev_* bookkeeping in observe_end handles that */
 		mc_observe("w%d(%d) ", c->id, o->a);
@@ -849,6 +858,7 @@ static void final_drain(void)
 		if (!stalled || round == 1) break;
 		/* nudge: a forced flush from both sides, then try again */
 		MC_COUNT("c17_final_nudges");
+		in_nudge = 1;
 		for (int e = 0; e < 2; e++) { bufferevent_flush(E[e].bev, EV_WRITE, BEV_FLUSH); }
 		for (int e = 0; e < 2; e++) { bufferevent_flush(E[e].bev, EV_READ, BEV_FLUSH); bufferevent_trigger(E[e].bev, EV_READ, BEV_TRIG_IGNORE_WATERMARKS | BEV_TRIG_DEFER_CALLBACKS); }
 	}
